@@ -191,6 +191,15 @@ def offset_for_local(name, local_epoch_seconds):
     if len(found) != 1:
         return None
     o = found.pop()
+    if name in NEAR_ZONES_SET and T_2008 <= local_epoch_seconds - o < T_2019_06:
+        # zones whose 2008-2019 rules are the same in both tz databases: any local time that exists exactly once is decided,
+        # however close to a switch it is (probed with +-2 h as well, so the repeated hour is seen as ambiguous)
+        cands = set()
+        for probe in (-7200, -3600, 0, 3600, 7200):
+            o2 = offset_at(name, local_epoch_seconds - o + probe)
+            if offset_at(name, local_epoch_seconds - o2) == o2:
+                cands.add(o2)
+        return o if cands == {o} else None
     return o if stable_around(name, local_epoch_seconds - o) else None
 
 
@@ -199,6 +208,9 @@ def offset_for_local(name, local_epoch_seconds):
 # tzdb 2022a (chrono-tz 0.6.3) and in the system's tz database; local times that are ambiguous (the repeated hour) are left out
 # ------------------------------------------------------------------------------------------------
 NEAR_ZONES = ["Europe/Warsaw", "Europe/London", "Europe/Berlin", "America/New_York", "America/Los_Angeles", "Australia/Sydney"]
+NEAR_ZONES_SET = set(NEAR_ZONES)
+T_2008 = int(datetime(2008, 1, 1, tzinfo=timezone.utc).timestamp())
+T_2019_06 = int(datetime(2019, 6, 1, tzinfo=timezone.utc).timestamp())
 _switches = {}
 
 
